@@ -390,7 +390,7 @@ def corpus() -> List[dict]:
 def run(ctx: Ctx) -> None:
     T.install_taps()
     rng = ctx.rng
-    n = ctx.budget(260, 6000)
+    n = ctx.budget(600, 8000)
     sessions = corpus()
     for i in range(n):
         f = rng.choices(["h1", "h2", "ws"], weights=[5, 3, 2])[0]
